@@ -43,23 +43,29 @@ type Case struct {
 }
 
 type cand struct {
-	full string
-	name string
-	kind string
+	full  string
+	name  string
+	kind  string
+	depth int
 }
 
 func fullPrefix(base, p string) string {
 	return strings.TrimRight(strings.TrimRight(base, "/")+p, "/")
 }
 
-func candidates(nodes []Node, base string, out *[]cand, all *[]string) {
+// candidates lists the sub-apps that configured an error handler with their full mount prefix and nesting depth. all
+// collects the full prefixes for the "shared prefix" rule; a sub-app mounted at "/" inside another one legitimately has
+// its parent's full prefix (it is the inner one of the two) and is not listed there a second time.
+func candidates(nodes []Node, base string, depth int, out *[]cand, all *[]string) {
 	for _, nd := range nodes {
 		full := fullPrefix(base, nd.Prefix)
-		*all = append(*all, full)
-		if nd.Handler != "" {
-			*out = append(*out, cand{full, nd.Name, nd.Handler})
+		if !(depth > 0 && full == base) {
+			*all = append(*all, full)
 		}
-		candidates(nd.Children, full, out, all)
+		if nd.Handler != "" {
+			*out = append(*out, cand{full, nd.Name, nd.Handler, depth})
+		}
+		candidates(nd.Children, full, depth+1, out, all)
 	}
 }
 
@@ -159,7 +165,7 @@ func build(c Case) (*fiber.App, *run) {
 func check(c Case) vk.Verdict {
 	var cands []cand
 	var all []string
-	candidates(c.Tree, "", &cands, &all)
+	candidates(c.Tree, "", 0, &cands, &all)
 	seen := map[string]bool{}
 	for _, f := range all {
 		if seen[f] {
@@ -168,11 +174,12 @@ func check(c Case) vk.Verdict {
 		seen[f] = true
 	}
 	want, wantKind := "root", c.RootHandler
-	best := -1
+	best, bestDepth := -1, -1
 	for _, cd := range cands {
-		if cd.full == "" || c.Path == cd.full || strings.HasPrefix(c.Path, cd.full+"/") {
-			if s := segments(cd.full); s > best {
-				best, want, wantKind = s, cd.name, cd.kind
+		if lp := strings.ToLower(c.Path); cd.full == "" || lp == strings.ToLower(cd.full) || strings.HasPrefix(lp, strings.ToLower(cd.full)+"/") {
+			// innermost: the longest prefix, and of two nested sub-apps with the same full prefix the inner one
+			if s := segments(cd.full); s > best || (s == best && cd.depth > bestDepth) {
+				best, bestDepth, want, wantKind = s, cd.depth, cd.name, cd.kind
 			}
 		}
 	}
@@ -252,20 +259,30 @@ func check(c Case) vk.Verdict {
 
 var prefixes = []string{"/api", "/api-v2", "/apix", "/api/v1", "/a", "/a/b", "/v1", "/", "/api/", "/ab"}
 
-func genNodes(t *rapid.T, depth int, base string, used map[string]bool, ctr *int) []Node {
+// shareable: a child mounted at "/" may share this parent's full prefix (the parent's own key does not end in a slash
+// and the parent is not itself such a child - otherwise both get the same key in the app list, which is the start-up
+// panic of open finding C04-b)
+func genNodes(t *rapid.T, depth int, base string, shareable bool, used map[string]bool, ctr *int) []Node {
 	var out []Node
+	sharedChild := false
 	k := rapid.IntRange(0, 3).Draw(t, "k")
 	for i := 0; i < k; i++ {
 		p := rapid.SampledFrom(prefixes).Draw(t, "p")
 		full := fullPrefix(base, p)
 		if used[full] {
-			continue
+			// one sub-app mounted at "/" inside another one may share its parent's prefix (it is the inner one);
+			// siblings on one prefix stay excluded
+			if !(shareable && full == base && !sharedChild) {
+				continue
+			}
+			sharedChild = true
 		}
+		isShared := used[full] && full == base
 		used[full] = true
 		*ctr++
 		nd := Node{Prefix: p, Handler: rapid.SampledFrom([]string{"", "ok", "ok", "fail", "fail-pass", "fail-fiber"}).Draw(t, "h"), Name: fmt.Sprintf("app%d", *ctr)}
 		if depth > 0 {
-			nd.Children = genNodes(t, depth-1, full, used, ctr)
+			nd.Children = genNodes(t, depth-1, full, !isShared && !strings.HasSuffix(p, "/"), used, ctr)
 		}
 		out = append(out, nd)
 	}
@@ -275,10 +292,10 @@ func genNodes(t *rapid.T, depth int, base string, used map[string]bool, ctr *int
 func genCase(t *rapid.T) Case {
 	c := Case{RootHandler: rapid.SampledFrom([]string{"", "ok", "ok", "fail", "fail-pass", "fail-fiber"}).Draw(t, "root")}
 	ctr := 0
-	c.Tree = genNodes(t, 2, "", map[string]bool{"": true}, &ctr)
+	c.Tree = genNodes(t, 2, "", false, map[string]bool{"": true}, &ctr)
 	var cands []cand
 	var all []string
-	candidates(c.Tree, "", &cands, &all)
+	candidates(c.Tree, "", 0, &cands, &all)
 	base := ""
 	if len(all) > 0 && rapid.IntRange(0, 5).Draw(t, "fromtree") != 0 {
 		base = rapid.SampledFrom(all).Draw(t, "base")
@@ -287,6 +304,9 @@ func genCase(t *rapid.T) Case {
 	c.Path = base + sfx
 	if c.Path == "" || c.Path[0] != '/' {
 		c.Path = "/" + c.Path
+	}
+	if rapid.IntRange(0, 4).Draw(t, "othercase") == 0 {
+		c.Path = strings.ToUpper(c.Path) // routing ignores case by default: the mount prefix still contains this path
 	}
 	c.Method = rapid.SampledFrom([]string{"GET", "GET", "POST", "PUT"}).Draw(t, "method")
 	c.ErrKind = rapid.SampledFrom([]string{"fiber", "plain", "fallthrough", "wrapped", "joined"}).Draw(t, "ek")
